@@ -27,6 +27,7 @@ RTOL = 1e-9
 T0 = datetime(2025, 1, 1, 5)      # hour 0 of the reference = 2025-01-01 05:00 UTC (not midnight, on purpose)
 LONG_LOAD = [1, 3, 0, 7, 0, 0, 1, 1, 3, 7, 7, 0, 1, 0, 3, 3, 0, 7, 1, 1, 0, 0, 3, 1, 7, 3]   # 26 h (> 1 day)
 DELETER_PATTERN = [1, 0, 2, 1, 3, 0, 1, 2]
+SECOND_WRITER_WINDOW = [3, 0, 1]     # load of the writer's second usage pattern (cfg["wsplit"] = empty hours before it)
 
 AMOUNTS = {"100kB": (100.0, "kilobyte"), "0.3MB": (0.3, "megabyte"), "33.3kB": (33.3, "kilobyte")}
 DEL_AMOUNTS = {"small": (-20.0, "kilobyte"), "big": (-0.25, "megabyte")}      # "same" = minus the writer's amount
@@ -90,11 +91,15 @@ def reference(cfg):
     load = cfg["load"]
     n = len(load)
     occ = {"jw": {h: float(v) for h, v in enumerate(load)}}
+    if cfg.get("wsplit"):
+        # the writing job is reached through a second usage pattern whose window starts after `wsplit` empty hours
+        for i, v in enumerate(SECOND_WRITER_WINDOW):
+            occ["jw"][n + cfg["wsplit"] + i] = float(v)
     if cfg["mix"] != "w":
         s, L = deleter_window(cfg["mix"], n)
         dl = [DELETER_PATTERN[i % len(DELETER_PATTERN)] for i in range(L)]
         if cfg["mix"] == "same-step":
-            occ["jd"] = dict(occ["jw"])
+            occ["jd"] = dict(occ["jw"])      # same step of the same journey: same hours as the writer
         else:
             occ["jd"] = {s + i: float(v) for i, v in enumerate(dl)}
     T = sorted(set().union(*[set(o) for o in occ.values()]))
@@ -152,16 +157,16 @@ def reference(cfg):
         return out
     cum_ref, cum_alt = cumulative(exp_ref), cumulative(exp_alt)
     ref["cum_ref"], ref["cum_alt"] = cum_ref, cum_alt
-    mins = [min(cum_ref.values()), min(cum_alt.values()), min(cum_ref[h] for h in T), min(cum_alt[h] for h in T)]
+    lowest = min(cum_ref.values())
     if dels:
-        if all(m < -ref["tol_kb"] for m in mins):
+        if lowest < -ref["tol_kb"]:
             ref["must"].add("negative-storage")
-        elif any(m < ref["tol_kb"] for m in mins):
+        elif lowest < ref["tol_kb"]:
             ref["may"].add("negative-storage")
     cap_kb = storage_capacity_kb(cfg, a_kb)
     ref["cap_kb"] = cap_kb
-    peaks = [max(cum_ref[h] for h in T) / cap_kb, max(cum_alt[h] for h in T) / cap_kb]
-    ref["st_peak_lo"], ref["st_peak_hi"] = ceil_lo(min(peaks)), ceil_hi(max(peaks))
+    peak = max(cum_ref.values()) / cap_kb
+    ref["st_peak_lo"], ref["st_peak_hi"] = ceil_lo(peak), ceil_hi(peak)
     # ---------------------------------------------------------------- fixed counts
     ref["fix_sv"] = ref["fix_st"] = None
     if cfg["fix_sv"] != "none":
@@ -241,6 +246,9 @@ def make_world(cfg, ref):
     add(w, "d", "Device")
     W._up(w, "up1", "uj1", "nw", "c", ["d"], cfg["load"], hstr(0))
     ups = ["up1"]
+    if cfg.get("wsplit"):
+        W._up(w, "up1b", "uj1", "nw", "c", ["d"], SECOND_WRITER_WINDOW, hstr(len(cfg["load"]) + cfg["wsplit"]))
+        ups.append("up1b")
     if "jd" in occ and not same_step:
         add(w, "s2", "UsageJourneyStep", user_time_spent=Q(20, "minute"), jobs=lst("jd"))
         add(w, "uj2", "UsageJourney", uj_steps=lst("s2"))
@@ -345,7 +353,7 @@ def windows_class(cfg):
 def cfg_size(cfg):
     return (len(cfg["load"]) * 10 + (0 if cfg["mix"] == "w" else 5) + (cfg["fix_sv"] != "none") + (cfg["fix_st"] != "none")
             + (cfg["base"] != "0") + (cfg["rep"] != 1) + (cfg["stype"] != "autoscaling") + (cfg["cap"] != "ample")
-            + (cfg["scap"] != "1TB") + sum(1 for x in cfg["load"] if x))
+            + (cfg["scap"] != "1TB") + sum(1 for x in cfg["load"] if x) + (30 if cfg.get("wsplit") else 0))
 
 
 # =========================================================================================== one model
@@ -509,8 +517,7 @@ def check_model(cfg):
                     bad({"clause": "storage-instances", "what": "capacity-below-cumulative-need"}, hour=h, nb=snb[h],
                         capacity_kB=cap, need_kB=cum[h])
                     break
-                if h in cr and not (snb[h] * cap >= cr[h] - max(tol, RTOL * abs(cr[h]))) \
-                        and not (snb[h] * cap >= ca[h] - max(tol, RTOL * abs(ca[h]))):
+                if h in cr and not (snb[h] * cap >= cr[h] - max(tol, RTOL * abs(cr[h]))):
                     bad({"clause": "storage-instances", "what": "capacity-below-reference-need"}, hour=h, nb=snb[h],
                         capacity_kB=cap, need_kB=cr[h])
                     break
@@ -599,9 +606,12 @@ MIXES = ["same-step", "equal", "overlap", "inside", "adjacent", "disjoint", "bef
 
 
 def cfg_of(load, amount="100kB", stype="autoscaling", cap="ample", fix_sv="none", fix_st="none", dur="1h", rep=1,
-           base="0", scap="1TB", mix="w", damt="small"):
-    return {"load": list(load), "amount": amount, "stype": stype, "cap": cap, "fix_sv": fix_sv, "fix_st": fix_st,
-            "dur": dur, "rep": rep, "base": base, "scap": scap, "mix": mix, "damt": damt}
+           base="0", scap="1TB", mix="w", damt="small", wsplit=0):
+    c = {"load": list(load), "amount": amount, "stype": stype, "cap": cap, "fix_sv": fix_sv, "fix_st": fix_st,
+         "dur": dur, "rep": rep, "base": base, "scap": scap, "mix": mix, "damt": damt}
+    if wsplit:
+        c["wsplit"] = wsplit
+    return c
 
 
 def enumerate_space(tier):
@@ -709,6 +719,28 @@ def enumerate_space(tier):
     add_slice("D fixed storage counts", items,
               f"loads({len(loadsD)}) x fixed storage count(4) x storage capacity(3: 1 TB, 1 GB, twice the per-request "
               f"amount) x base(3) x replication(2) x mixes({2 if thorough else 1}); amount and duration cycled")
+    # E — the writing job is reached through two usage patterns with disjoint windows: the second one starts after a
+    # gap of 1 hour (shorter than or equal to every storage duration) or 4 hours (longer than the 1 h and 2 h durations),
+    # so that expiries fall inside the gap / inside the second window and the index of the need has a hole
+    loadsE = (w2 + [[1, 3, 0], [7, 0, 1], [1, 3, 0, 7], [3, 3, 3, 3], LONG_LOAD]) if thorough \
+        else [[3], [1, 7], [7, 0, 1], [1, 3, 0, 7]]
+    items = []
+    i = 0
+    for ld in loadsE:
+        for gap in (1, 4):
+            for a in amounts:
+                for d in durs:
+                    for rep in (1, 3):
+                        for b in (bases if thorough else ["0", "small"]):
+                            for mix in (("w", "equal", "disjoint") if thorough else ("w", "disjoint")):
+                                i += 1
+                                s = BUILDING_SERVERS[i % len(BUILDING_SERVERS)]
+                                items.append(cfg_of(ld, amount=a, dur=d, rep=rep, base=b, mix=mix, damt="small",
+                                                    wsplit=gap, stype=s[0], cap=s[1], fix_sv=s[2],
+                                                    scap="1TB" if i % 2 else "2xamount"))
+    add_slice("E writer reached through two usage patterns with disjoint windows", items,
+              f"loads({len(loadsE)}) x gap before the second window(2: 1 h, 4 h) x amounts(3) x durations(3) x "
+              f"replication(2) x base({3 if thorough else 2}) x mixes({3 if thorough else 2})")
     # de-duplicate (slices overlap on a few points)
     seen, out = set(), []
     for c in cfgs:
@@ -722,7 +754,7 @@ def enumerate_space(tier):
 DIMENSIONS = {"amount": list(AMOUNTS), "stype": ["autoscaling", "on-premise", "serverless"], "cap": list(CAPS),
               "fix_sv": ["none", "peak-1", "peak", "larger"], "fix_st": ["none", "peak-1", "peak", "larger"],
               "dur": list(DURATIONS), "rep": [1, 3], "base": list(BASES), "scap": ["1TB", "1GB", "2xamount"],
-              "mix": ["w"] + MIXES, "damt": ["small", "same", "big"]}
+              "mix": ["w"] + MIXES, "damt": ["small", "same", "big"], "wsplit": [0, 1, 4]}
 
 
 def main(tier):
@@ -731,7 +763,7 @@ def main(tier):
     cfgs, slices = enumerate_space(tier)
     # every value of every dimension must be present (otherwise the slice definition is broken: harness error)
     for dim, vals in DIMENSIONS.items():
-        present = {json.dumps(c[dim]) for c in cfgs}
+        present = {json.dumps(c.get(dim, 0)) for c in cfgs}
         for v in vals:
             if json.dumps(v) not in present:
                 print(f"HARNESS-ERROR value {v!r} of dimension {dim} is not enumerated in tier {tier}")
@@ -787,7 +819,8 @@ def main(tier):
         "requests last exactly one hour and sit in the first journey step, so that job load per hour = journey starts "
         "(conservation upstream of the job is C03's business)",
         "deletions are replicated like writes (the library's reading); expiries are due storage-duration hours after "
-        "the write if that hour lies inside the modelled period of the storage",
+        "the write if that hour is not after the last hour of the modelled period of the storage (union of the windows "
+        "of all its jobs)",
         "tolerance rel 1e-9; the ceiling of a value within 1e-9 of an integer may go either way; a model whose "
         "reference verdict depends on that is accepted either way (counted as boundary case)",
         "available capacity exactly zero (base consumption == capacity x utilisation): a ValueError refusal or an "
